@@ -311,8 +311,29 @@ def c11(chk):
                         npp = PP(d, fo, g.bps, g.rows, g.nc) if fo < 0 else PP(d, fo, g.bps[:2], g.rows[:1] * (fo + 1), fo + 1)
                 else:
                     npp = fresh_pp()
+                # updates that keep the coefficient values (re-timing, re-segmentation) or the breakpoints hand the object its own
+                # members back half of the time (codes 2/3/4: the arguments alias the members), and a coefficient-only update
+                how = 0
+                if cur.ok and npp.ok and rng.random() < 0.5:
+                    how = rng.choice([2, 3, 4])
+                if op == 'update' and cur.ok and rng.random() < 0.3:
+                    g2 = fresh_pp()
+                    if len(g2.rows) == 0 or g2.nc <= 0:
+                        pass
+                    else:
+                        # same breakpoints, new coefficient values (possibly another coefficient count): rows = nseg * nc'
+                        nc2 = g2.nc
+                        rows2 = [[gen.real(rng, -4, 4, 0.7, 3) for _ in range(d)] for _ in range(cur.nseg * nc2)]
+                        npp = PP(d, fo, list(cur.bps), rows2, nc2)
+                        how = rng.choice([0, 3, 3])
                 mirror[s] = npp
-                lines.append(init_line(rid, s, 0, npp)); plan.append(('init', s, None)); rid += 1
+                lines.append(init_line(rid, s, how, npp)); plan.append(('init', s, None)); rid += 1
+                if how:
+                    chk.count('update with aliasing arguments (own members)')
+                    if npp.ok:
+                        for _ in range(2):
+                            t = rng.uniform(npp.bps[0], npp.bps[-1]); k = rng.randrange(0, npp.nc)
+                            lines.append(f'{rid} Q pp_eval {s} {hx(t)} {k}'); plan.append(('probe', s, (t, k, copy.deepcopy(npp)))); rid += 1
             elif op == 'deriv':
                 if not cur.ok:
                     continue
